@@ -37,6 +37,12 @@ def union_iv(list_of_timed):
 
 def o_merge(inp):
     rels = [[tuple(m) for m in r] for r in inp["rels"]]
+    if not rels:
+        return [("~skip:no-input", "")]
+    for r in rels:
+        tr, _ = rel_timed(r)
+        if wf_violations(tr) or any(on >= off for (_, _, on, off, _) in notes_of(tr)):
+            return [("~skip:not-well-formed", "")]
     try:
         s = merged(rels, list(range(len(rels))))
     except Exception as e:
